@@ -25,8 +25,9 @@ const (
 )
 
 type gRef struct {
-	Alias     bool // the reference names the target by its alias
-	XC        bool // (deferred call of a run: always task) the call passes XC: '{{.EXIT_CODE}}'
+	Alias     bool   // the reference names the target by its alias
+	XC        bool   // (deferred call of a run: always task) the call passes XC: '{{.EXIT_CODE}}'
+	ForKind   string // how the loop list is given: "" literal list, "var" (space separated variable), "split" (variable split at ','), "sources" (the task's sources; task t0 only)
 	Target    int
 	VMode     int
 	VLit      string
@@ -43,8 +44,9 @@ type gCmd struct {
 	Ref       gRef     // call
 	For       []string // probe loops
 	Silent    bool
-	DeferTplV bool // deferred call passes V: '{{.V}}' (known-defect trigger, C02 only)
-	Glued     bool // probe: START and END lines come from one printf (two writes, no cancellation point between them)
+	DeferTplV bool   // deferred call passes V: '{{.V}}' (known-defect trigger, C02 only)
+	ForKind   string // probe loops: as gRef.ForKind
+	Glued     bool   // probe: START and END lines come from one printf (two writes, no cancellation point between them)
 }
 
 type gTask struct {
@@ -63,6 +65,8 @@ type gTask struct {
 	Internal bool
 	VUse     string // "cmd" (default), "env": where a when_changed task lets V surface
 	PrintXC  bool   // some deferred call passes XC to this task: its probes print it
+	DynFail  bool   // a task-level dynamic variable whose command fails: the task cannot be compiled (checked per call, before deps and deduplication)
+	SrcLoop  bool   // (t0) the task has templated sources (method: none) some of its loops iterate over
 	Dir      string
 	DynVar   bool
 }
@@ -131,6 +135,7 @@ type gBias struct {
 	Cancel       bool
 	FanIn        bool
 	Matrix       bool
+	LoopKinds    bool // loops take their list from a variable (plain / split) or from the task's sources
 	DynVars      bool // tasks get a dynamic (sh:) variable (race-sim: exercises the dynamic variable cache)
 }
 
@@ -153,6 +158,9 @@ func genRef(ch *vs.Choices, p *gProg, from, n int, b gBias, allowLoop bool) (gRe
 	}
 	r := gRef{Target: from + 1 + ch.Draw(n-from-1)}
 	r.Alias = ch.Bool(1, 5)
+	if b.LoopKinds {
+		r.ForKind = []string{"", "", "var", "split", "sources"}[ch.Draw(5)]
+	}
 	if b.FanIn && n-from-1 > 1 && ch.Bool(1, 2) {
 		// bias towards the last tasks so that many callers share them
 		r.Target = n - 1 - ch.Draw(2)
@@ -233,6 +241,9 @@ func genG(ch *vs.Choices, b gBias) *gProg {
 				}
 				if ch.Pct(b.PLoop) {
 					c.For = []string{"x", "y", "z"}[:1+ch.Draw(3)]
+					if b.LoopKinds {
+						c.ForKind = []string{"", "", "var", "split", "sources"}[ch.Draw(5)]
+					}
 				}
 				c.Glued = ch.Bool(1, 3) && c.Fail == 0
 			}
@@ -274,6 +285,7 @@ func genG(ch *vs.Choices, b gBias) *gProg {
 			}
 		}
 		t.DynVar = b.DynVars && ch.Bool(1, 2)
+		t.DynFail = b.DynVars && b.PGuard > 0 && ch.Bool(1, 12)
 		if b.VEnvSub && t.Run == "when_changed" && ch.Bool(1, 2) {
 			t.VUse = "env"
 		}
@@ -383,6 +395,63 @@ func gSanitize(p *gProg, b gBias) {
 				// same instance id: a when_changed task is always called with an explicit V
 				r.VMode, r.VLit = vLit, ""
 			}
+		}
+		loopFix := func(items *[]string, kind *string, isMatrix bool) {
+			if *items == nil || isMatrix {
+				*kind = ""
+				return
+			}
+			if *kind == "sources" {
+				if t.Idx != 0 {
+					*kind = "var"
+					return
+				}
+				t.SrcLoop = true
+				*items = []string{"sx1.dep", "sx2.dep", "sx3.dep"}[:len(*items)]
+			}
+		}
+		nSrc := 0
+		for i := range t.Deps {
+			if t.Deps[i].For != nil && t.Deps[i].ForKind == "sources" && t.Idx == 0 {
+				nSrc = max(nSrc, len(t.Deps[i].For))
+			}
+		}
+		for i := range t.Cmds {
+			if t.Cmds[i].Kind == gCall && t.Cmds[i].Ref.For != nil && t.Cmds[i].Ref.ForKind == "sources" && t.Idx == 0 {
+				nSrc = max(nSrc, len(t.Cmds[i].Ref.For))
+			}
+			if t.Cmds[i].Kind == gProbe && t.Cmds[i].For != nil && t.Cmds[i].ForKind == "sources" && t.Idx == 0 && !t.Cmds[i].Defer {
+				nSrc = max(nSrc, len(t.Cmds[i].For))
+			}
+		}
+		for i := range t.Deps {
+			loopFix(&t.Deps[i].For, &t.Deps[i].ForKind, t.Deps[i].Matrix != nil)
+			if t.Deps[i].ForKind == "sources" {
+				t.Deps[i].For = []string{"sx1.dep", "sx2.dep", "sx3.dep"}[:nSrc] // every sources loop of the task sees the same files
+			}
+		}
+		for i := range t.Cmds {
+			c := &t.Cmds[i]
+			if c.Kind == gCall {
+				if c.Defer {
+					c.Ref.ForKind = ""
+				}
+				loopFix(&c.Ref.For, &c.Ref.ForKind, c.Ref.Matrix != nil)
+				if c.Ref.ForKind == "sources" {
+					c.Ref.For = []string{"sx1.dep", "sx2.dep", "sx3.dep"}[:nSrc]
+				}
+			} else {
+				if c.Defer {
+					c.ForKind = ""
+				}
+				loopFix(&c.For, &c.ForKind, false)
+				if c.ForKind == "sources" {
+					c.For = []string{"sx1.dep", "sx2.dep", "sx3.dep"}[:nSrc]
+				}
+			}
+		}
+		if t.DynFail && t.Platform == "nomatch" {
+			t.DynFail = false
 		}
 		for i := range t.Deps {
 			fix(&t.Deps[i])
@@ -526,7 +595,24 @@ func renderRefVars(p *gProg, from *gTask, r gRef, edge string, deferTpl bool) st
 	return "vars: {" + strings.Join(kv, ", ") + "}"
 }
 
-func renderFor(r gRef) string {
+// loopSpec renders a non-matrix loop header and, for variable loops, the task-level variable that carries the list.
+func loopSpec(items []string, kind, varName string) (string, string) {
+	switch kind {
+	case "var":
+		return fmt.Sprintf("for: {var: %s}", varName), fmt.Sprintf("%s: '%s'", varName, strings.Join(items, " "))
+	case "split":
+		return fmt.Sprintf("for: {var: %s, split: ','}", varName), fmt.Sprintf("%s: '%s'", varName, strings.Join(items, ","))
+	case "sources":
+		return "for: sources", ""
+	}
+	return fmt.Sprintf("for: [%s]", strings.Join(items, ", ")), ""
+}
+
+func renderFor(r gRef, varName string) string {
+	if r.For != nil && r.Matrix == nil {
+		s, _ := loopSpec(r.For, r.ForKind, varName)
+		return s
+	}
 	if r.Matrix != nil {
 		axis := func(i int) string {
 			if r.MatrixRef&(1<<i) != 0 {
@@ -577,6 +663,26 @@ func (p *gProg) Files() map[string]string {
 	if p.IncSplit > 0 {
 		m["Taskfile.yml"] = p.render(0, p.IncSplit, true)
 		m["inc/Taskfile.yml"] = p.render(p.IncSplit, len(p.Tasks), false)
+	}
+	if len(p.Tasks) > 0 && p.Tasks[0].SrcLoop {
+		n := 0
+		t := p.Tasks[0]
+		for _, d := range t.Deps {
+			if d.ForKind == "sources" {
+				n = max(n, len(d.For))
+			}
+		}
+		for _, c := range t.Cmds {
+			if c.Kind == gCall && c.Ref.ForKind == "sources" {
+				n = max(n, len(c.Ref.For))
+			}
+			if c.Kind == gProbe && c.ForKind == "sources" {
+				n = max(n, len(c.For))
+			}
+		}
+		for _, f := range []string{"sx1.dep", "sx2.dep", "sx3.dep"}[:n] {
+			m[f] = "source file " + f + "\n"
+		}
 	}
 	return m
 }
@@ -679,8 +785,44 @@ func (p *gProg) render(lo, hi int, root bool) string {
 		if t.VUse == "env" {
 			sb.WriteString("    env:\n      EV: '{{.V}}'\n      EW: '{{.W}}'\n")
 		}
+		var tvars []string
 		if t.DynVar {
-			fmt.Fprintf(&sb, "    vars:\n      DYN:\n        sh: echo dyn-%s\n", t.Name)
+			tvars = append(tvars, fmt.Sprintf("DYN:\n        sh: echo dyn-%s", t.Name))
+		}
+		if t.DynFail {
+			tvars = append(tvars, "DF:\n        sh: exit 3")
+		}
+		if t.SrcLoop {
+			tvars = append(tvars, "SD: sx")
+		}
+		for k, d := range t.Deps {
+			if d.For != nil && d.Matrix == nil {
+				if _, v := loopSpec(d.For, d.ForKind, fmt.Sprintf("LD%d", k)); v != "" {
+					tvars = append(tvars, v)
+				}
+			}
+		}
+		for k, c := range t.Cmds {
+			if c.Kind == gCall && c.Ref.For != nil && c.Ref.Matrix == nil {
+				if _, v := loopSpec(c.Ref.For, c.Ref.ForKind, fmt.Sprintf("LC%d", k)); v != "" {
+					tvars = append(tvars, v)
+				}
+			}
+			if c.Kind == gProbe && c.For != nil {
+				if _, v := loopSpec(c.For, c.ForKind, fmt.Sprintf("LC%d", k)); v != "" {
+					tvars = append(tvars, v)
+				}
+			}
+		}
+		if len(tvars) > 0 {
+			sb.WriteString("    vars:\n")
+			for _, v := range tvars {
+				fmt.Fprintf(&sb, "      %s\n", v)
+			}
+		}
+		if t.SrcLoop {
+			// templated sources, never "up to date"
+			sb.WriteString("    method: none\n    sources: ['{{.SD}}*.dep']\n")
 		}
 		if len(t.Deps) > 0 {
 			sb.WriteString("    deps:\n")
@@ -698,7 +840,7 @@ func (p *gProg) render(lo, hi int, root bool) string {
 						fmt.Fprintf(&sb, "        %s\n", s)
 					}
 				}
-				item(renderFor(d))
+				item(renderFor(d, fmt.Sprintf("LD%d", k)))
 				item("task: " + yq(p.refNameA(t.Idx, d.Target, d.Alias)))
 				item(renderRefVars(p, t, d, edge, false))
 			}
@@ -723,7 +865,8 @@ func (p *gProg) render(lo, hi int, root bool) string {
 					continue
 				}
 				if c.For != nil {
-					item(fmt.Sprintf("for: [%s]", strings.Join(c.For, ", ")))
+					ls, _ := loopSpec(c.For, c.ForKind, fmt.Sprintf("LC%d", k))
+					item(ls)
 				}
 				item("cmd: " + yq(probeText(p, t, k, c)))
 				if c.Ign {
@@ -743,7 +886,7 @@ func (p *gProg) render(lo, hi int, root bool) string {
 				}
 				continue
 			}
-			item(renderFor(c.Ref))
+			item(renderFor(c.Ref, fmt.Sprintf("LC%d", k)))
 			item("task: " + yq(p.refNameA(t.Idx, c.Ref.Target, c.Ref.Alias)))
 			item(renderRefVars(p, t, c.Ref, edge, false))
 			if c.Silent {
